@@ -264,8 +264,10 @@ PROPS["C04"] = dict(
                "(and that link / unlink succeeds); errors change nothing "
                "(C06), and the executable specification of the data clauses (merged cells carry the merge under the new id, "
                "unchanged cells keep their value, nothing stale, split mirror) built on the verified orbit closure is applied "
-               "to every implementation observation; the data clauses are proved for the model only through the correspondence "
-               "(partial, see DESIGN.md)",
+               "to every implementation observation; proved as well: the data clause for coordinates through the 1-sew and the "
+               "1-unsew (C04_one_sew_vertex_data / C04_one_unsew_vertex_data: the vertex identified by the orbit minimum of the "
+               "linked map carries the lawful merge, the former ids are emptied, every other slot is untouched; mirror image "
+               "with the split law); attribute kinds and the 2-sews: per observation (partial, see DESIGN.md)",
     technique="Coq proof (topology clause) + extracted Coq specification of the data clauses as oracle + correspondence",
     families=[
         Family("grid2", "core2", r_grid2, 1, [(6, "sew2_spec", SEW_CLASSES)]),
@@ -328,8 +330,8 @@ PROPS["C15"] = dict(
                "implementation; the property (triangles stay triangles, well-formedness, V/E/F deltas, vertex set, exact area "
                "conservation, orientation after collapse, swap = other diagonal, anchors) is an executable Coq predicate "
                "applied to every implementation observation; proved: atomicity of failures, the area identities of swap and cut (C15_swap_conserves_area, C15_cut_conserves_area), "
-               "and for ALL maps the well-formedness clause of swap and of the boundary cut (C15_swap_keeps_wf2, "
-               "C15_cut_outer_keeps_wf2, Map2/KernWf.v); inner cut and collapse: well-formedness per observation",
+               "and for ALL maps the well-formedness clause of swap and of both cuts (C15_swap_keeps_wf2, "
+               "C15_cut_outer_keeps_wf2, C15_cut_inner_keeps_wf2, Map2/KernWf.v); collapse: well-formedness per observation",
     technique="Coq model of the kernels + correspondence + extracted Coq specification (exact arithmetic) as per-run validator",
     families=[
         Family("kern-remesh", "core2", r_kern("remesh", 1200, 20000, 8), 1, [(9, "remesh_spec", REM_CLASSES)]),
